@@ -45,6 +45,7 @@ fn run(loc: &Locator, input: &str, memo: bool) -> (u64, usize, String, String, u
             format!("{root:#?}").hash(&mut h);
             // leaves in source order, each inside the text, non-overlapping, on char boundaries
             let mut last_end = 0usize;
+            let mut leaf_spans: Vec<(usize, usize)> = Vec::new();
             for node in root.descendants() {
                 if matches!(node.syntax().trunk(), oal_model::grammar::SyntaxTrunk::Leaf(_)) {
                     leaves += 1;
@@ -57,6 +58,7 @@ fn run(loc: &Locator, input: &str, memo: bool) -> (u64, usize, String, String, u
                         leaves_ok = false;
                     }
                     last_end = sp.end();
+                    leaf_spans.push((sp.start(), sp.end()));
                 } else if let Some(sp) = node.span() {
                     if sp.end() > input.len() || sp.start() > sp.end() {
                         spans_ok = false;
@@ -74,6 +76,21 @@ fn run(loc: &Locator, input: &str, memo: bool) -> (u64, usize, String, String, u
                         spans_ok = false;
                     }
                 }
+            }
+            // the leaves are exactly the non-trivia tokens of the parsed prefix, each once, in order
+            let (tl, _) = tokenize(loc.clone(), input);
+            let tl: TokenList<Token> = tl.unwrap();
+            let mut want: Vec<(usize, usize)> = Vec::new();
+            let mut cur = tl.head();
+            while cur.is_valid() {
+                let (tok, span) = tl.token_span(cur);
+                if !<Token as Lexeme>::is_trivia(tok.kind()) && span.end() <= last_end {
+                    want.push((span.start(), span.end()));
+                }
+                cur = tl.advance(cur);
+            }
+            if want != leaf_spans {
+                leaves_ok = false;
             }
         }
         Ok(_) => "no-node".hash(&mut h),
